@@ -11,7 +11,9 @@ CLAIMED = {
                   'fairness with a lock-release sub-argument) instantiated on the pc-machine model of the pipeline, on top of '
                   'inductive invariants for every schedule (mutual exclusion / ownership of the wait-strategy mutex, no lost '
                   'wake-up); the executor the liveness statements presuppose (one thread per runnable, join waits for all) regenerated from '
-                  'executor/thread_pool_executor.rs on every run (tools/rs2lean_executor.py, Gen/Executor.lean, Props/C06Gen.lean) '
+                  'executor/thread_pool_executor.rs on every run (tools/rs2lean_executor.py, Gen/Executor.lean, Props/C06Gen.lean); the decisions and the '
+                  'order of lock / alert / loads / wait / unlock / notify operations of BlockingWaitStrategy::wait_for and signal regenerated from the '
+                  'source and proved to be the model\'s blocking program-counter paths (tools/rs2lean_spinwait.py, Gen/SpinWait.lean, Props/C13WaitGen.lean) '
                   '+ trace replay of real executions under the deterministic scheduler, which reports deadlock / budget '
                   '(hang) / panic ends',
         text='Single-producer pipelines, every ring size, topology (K>=1 stages, >=1 handler each) and batch list with 1<=b<=N '
